@@ -6,7 +6,6 @@ import (
 	"go/token"
 	"go/types"
 	"os"
-	"regexp/syntax"
 	"sort"
 	"strings"
 
@@ -367,6 +366,8 @@ var reviewedIndex = map[string]string{
 // construct that pushed (cross-layer obligation checked below).
 func c13Index(w *World, r *Result) {
 	rule := "R-C13-index"
+	idxEngine = newCharEngine(w)
+	defer func() { idxEngine = nil }()
 	roles := append(append([]string{}, libRoles...), "main")
 	for _, role := range roles {
 		for _, fn := range w.Funcs(role) {
@@ -736,6 +737,132 @@ func indexDischarged(fn *ssa.Function, blk *ssa.BasicBlock, base, index ssa.Valu
 		if f.Dominates(blk) && len(f.Preds) == 1 && guard(ifi.Cond, false) {
 			return true
 		}
+	}
+	// 3. scanning positions of a string: the position is bounded by induction over the places
+	// it is advanced at (see posBound)
+	if isString(base.Type()) && idxEngine != nil {
+		pb := &posBound{ce: idxEngine, fn: fn, base: base, assumed: map[ssa.Value]bool{}}
+		if kind == "slice" {
+			return pb.leLen(index, blk, 0)
+		}
+		return pb.ltLen(index, blk)
+	}
+	return false
+}
+
+// idxEngine: character tests of the lexer (set by c13Index for the duration of the rule).
+var idxEngine *charEngine
+
+// posBound: bounds of scanning positions relative to the length of the scanned string.
+//
+//	p <  len(s) at a block: a dominating branch is the true side of p < len(s) (or of a
+//	                         character test on the character at p that fails at the end of
+//	                         the input: the one-character accessor yields "" exactly there),
+//	                         or the byte s[p] was read on the way (that access is judged itself);
+//	p <= len(s):             p < len(s); p = 0; p = len(s); p = q + 1 with q < len(s) where the
+//	                         sum is formed; a merge of values that are all <= len(s) (a loop
+//	                         variable is assumed bounded while its own increments are checked).
+type posBound struct {
+	ce      *charEngine
+	fn      *ssa.Function
+	base    ssa.Value
+	assumed map[ssa.Value]bool
+}
+
+func (p *posBound) isLen(v ssa.Value) bool { return sameLen(v, p.base) }
+
+func (p *posBound) ltLen(q ssa.Value, blk *ssa.BasicBlock) bool {
+	for d := blk; d != nil; d = d.Idom() {
+		// the byte at q was read in a dominating block (or earlier in this one)
+		for _, ins := range d.Instrs {
+			switch x := ins.(type) {
+			case *ssa.Index:
+				if x.Index == q && (x.X == p.base || rootOf(x.X, 0) == rootOf(p.base, 0)) && d != blk {
+					return true
+				}
+			case *ssa.Lookup:
+				if x.Index == q && (x.X == p.base || rootOf(x.X, 0) == rootOf(p.base, 0)) && d != blk {
+					return true
+				}
+			}
+		}
+		parent := d.Idom()
+		if parent == nil || len(parent.Instrs) == 0 {
+			continue
+		}
+		ifi, ok := parent.Instrs[len(parent.Instrs)-1].(*ssa.If)
+		if !ok {
+			continue
+		}
+		onTrue := parent.Succs[0].Dominates(blk) && len(parent.Succs[0].Preds) == 1
+		onFalse := parent.Succs[1].Dominates(blk) && len(parent.Succs[1].Preds) == 1
+		if onTrue == onFalse {
+			continue
+		}
+		if bo, ok := ifi.Cond.(*ssa.BinOp); ok {
+			x, y, op := bo.X, bo.Y, bo.Op
+			if !onTrue {
+				switch op {
+				case token.LSS:
+					op = token.GEQ
+				case token.GEQ:
+					op = token.LSS
+				case token.GTR:
+					op = token.LEQ
+				case token.LEQ:
+					op = token.GTR
+				default:
+					op = token.ILLEGAL
+				}
+			}
+			if (op == token.LSS && x == q && p.isLen(y)) || (op == token.GTR && y == q && p.isLen(x)) {
+				return true
+			}
+		}
+		if t := p.ce.classify(p.fn, ifi.Cond); t != nil && t.Pos == q && t.Src != nil && (t.Src == p.base || rootOf(t.Src, 0) == rootOf(p.base, 0)) {
+			// the test holds on the taken side only for characters that exist
+			if onTrue && !t.Set.EOF && !t.IsByte {
+				return true
+			}
+			if onFalse && t.Set.EOF && !t.IsByte {
+				return true
+			}
+		}
+	}
+	return false
+}
+
+func (p *posBound) leLen(v ssa.Value, blk *ssa.BasicBlock, depth int) bool {
+	if depth > 8 || v == nil {
+		return false
+	}
+	if p.assumed[v] {
+		return true
+	}
+	if isConstInt(v, 0) || p.isLen(v) {
+		return true
+	}
+	if p.ltLen(v, blk) {
+		return true
+	}
+	switch x := v.(type) {
+	case *ssa.BinOp:
+		if x.Op == token.ADD && isConstInt(x.Y, 1) && p.ltLen(x.X, x.Block()) {
+			return true
+		}
+	case *ssa.Phi:
+		p.assumed[x] = true
+		ok := true
+		for i, e := range x.Edges {
+			if !p.leLen(e, x.Block().Preds[i], depth+1) {
+				ok = false
+				break
+			}
+		}
+		if !ok {
+			delete(p.assumed, x)
+		}
+		return ok
 	}
 	return false
 }
@@ -2027,33 +2154,22 @@ func isConstInt(v ssa.Value, n int64) bool {
 // same position whose class is contained in the loop's class. Then the first iteration
 // cannot leave, i.e. the loop consumes at least one character.
 func lexFirstIterationRuns(w *World, lf *LexFacts, fn *ssa.Function, hdr *ssa.BasicBlock) bool {
-	classAt := map[token.Pos]*syntax.Regexp{}
-	for _, re := range lf.Regexes {
-		if re.Method == "MatchString" {
-			if cc, ok := charClassOf(re.Tree); ok {
-				classAt[re.Call.Lparen] = cc
-			}
+	ce := newCharEngine(w)
+	// class test on one character of the source: returns the class, the position value and the source value
+	classTest := func(c ssa.Value) (ByteSet, ssa.Value, ssa.Value, bool) {
+		t := ce.classify(fn, c)
+		if t == nil || t.Pos == nil || t.Src == nil {
+			return ByteSet{}, nil, nil, false
 		}
-	}
-	// class test on char(source, pos): returns class, the position value and the source value
-	classTest := func(c ssa.Value) (*syntax.Regexp, ssa.Value, ssa.Value, bool) {
-		call, ok := c.(*ssa.Call)
-		if !ok {
-			return nil, nil, nil, false
+		if t.Set.EOF {
+			return ByteSet{}, nil, nil, false // succeeds at the end of the input: no character need be there
 		}
-		cc, ok := classAt[call.Pos()]
-		if !ok || len(call.Call.Args) < 2 {
-			return nil, nil, nil, false
-		}
-		ch, ok := call.Call.Args[len(call.Call.Args)-1].(*ssa.Call)
-		if !ok || ch.Call.StaticCallee() == nil || len(ch.Call.Args) != 2 || pkgOf(ch.Call.StaticCallee()) != w.Pkgs["lexer"].Types {
-			return nil, nil, nil, false
-		}
-		return cc, ch.Call.Args[1], ch.Call.Args[0], true
+		return t.Set, t.Pos, t.Src, true
 	}
 	body := loopBody(hdr)
 	// the loop's only exit is the failing class test
-	var inner *syntax.Regexp
+	var inner ByteSet
+	haveInner := false
 	var posPhi *ssa.Phi
 	var src ssa.Value
 	exits := 0
@@ -2073,9 +2189,10 @@ func lexFirstIterationRuns(w *World, lf *LexFacts, fn *ssa.Function, hdr *ssa.Ba
 				return false
 			}
 			inner, posPhi, src = cc, ph, sv
+			haveInner = true
 		}
 	}
-	if exits != 1 || inner == nil {
+	if exits != 1 || !haveInner {
 		return false
 	}
 	// the value of the position on entry
@@ -2098,19 +2215,8 @@ func lexFirstIterationRuns(w *World, lf *LexFacts, fn *ssa.Function, hdr *ssa.Ba
 		if !(d.Succs[0].Dominates(hdr) && len(d.Succs[0].Preds) == 1) {
 			continue
 		}
-		// class inclusion: every range of cc lies in some range of inner
-		incl := true
-		for i := 0; i+1 < len(cc.Rune); i += 2 {
-			found := false
-			for j := 0; j+1 < len(inner.Rune); j += 2 {
-				if inner.Rune[j] <= cc.Rune[i] && cc.Rune[i+1] <= inner.Rune[j+1] {
-					found = true
-				}
-			}
-			if !found {
-				incl = false
-			}
-		}
+		// class inclusion: every character that passes the entry test passes the loop's test
+		incl := cc.SubsetOf(inner)
 		if incl {
 			return true
 		}
